@@ -222,152 +222,41 @@ Lemma ascii_chars s : is_ascii_str s = true ->
   chars s = map (fun c => String c EmptyString) (list_ascii_of_string s).
 Proof. intros H. unfold chars. rewrite (ascii_chars_acc s EmptyString H). reflexivity. Qed.
 
-Lemma singles_length s : length (singles s) = String.length s.
+(* ---------- string functions see the same characters as indexing and spreading ---------- *)
+(* every one of len / head / tail / slice is a function of [chars s], the sequence that
+   access_value (VStr s) and spreading expose (Access.v) *)
+Lemma string_char_consistency s :
+  bi_len [VStr s] = Ok (VNum (num_of_nat (length (chars s)))) /\
+  bi_head [VStr s] = Ok (VStr (hd EmptyString (chars s))) /\
+  (exists t, bi_tail [VStr s] = Ok (VStr t) /\ t = String.concat EmptyString (tl (chars s)) /\
+             (hd EmptyString (chars s) ++ t)%string = s) /\
+  (forall x y, bi_slice [VStr s; VNum x; VNum y] =
+     match slice_get (chars s) (as_usize x) (as_usize y) with
+     | Some cs => Ok (VStr (String.concat EmptyString cs))
+     | None => Err
+     end).
 Proof.
-  unfold singles. rewrite map_length.
-  induction s as [|c s IH]; cbn [list_ascii_of_string length String.length]; [reflexivity | now rewrite IH].
-Qed.
-
-Lemma singles_concat s : String.concat EmptyString (singles s) = s.
-Proof.
-  induction s as [|c s IH]; [reflexivity|].
-  change (singles (String c s)) with (String c EmptyString :: singles s).
-  rewrite concat_empty_cons, IH. reflexivity.
-Qed.
-
-Lemma singles_skipn n s : skipn n (singles s) = singles (str_drop n s).
-Proof.
-  revert s. induction n as [|n IH]; intros s; [reflexivity|].
-  destruct s as [|c s]; [reflexivity|].
-  change (singles (String c s)) with (String c EmptyString :: singles s).
-  cbn [skipn str_drop]. apply IH.
-Qed.
-
-Lemma singles_firstn n s : firstn n (singles s) = singles (str_take n s).
-Proof.
-  revert s. induction n as [|n IH]; intros s; [reflexivity|].
-  destruct s as [|c s]; [reflexivity|].
-  change (singles (String c s)) with (String c EmptyString :: singles s).
-  cbn [firstn str_take].
-  change (singles (String c (str_take n s))) with (String c EmptyString :: singles (str_take n s)).
-  now rewrite IH.
-Qed.
-
-Lemma str_take_all s : str_take (String.length s) s = s.
-Proof. induction s as [|c s IH]; cbn [String.length str_take]; [reflexivity | now rewrite IH]. Qed.
-
-Lemma ascii_drop_head n s : is_ascii_str s = true ->
-  match str_drop n s with String c _ => is_cont c = false | EmptyString => True end.
-Proof.
-  revert s. induction n as [|n IH]; intros s H.
-  - cbn [str_drop]. destruct s as [|c r]; [exact I|].
-    unfold is_ascii_str in H. cbn [list_ascii_of_string forallb] in H.
-    apply andb_true_iff in H. now apply ascii_not_cont.
-  - destruct s as [|c r]; [exact I|]. cbn [str_drop]. apply IH.
-    unfold is_ascii_str in H. cbn [list_ascii_of_string forallb] in H.
-    apply andb_true_iff in H. apply H.
-Qed.
-
-Lemma str_drop_nonempty n s : (n < String.length s)%nat -> str_drop n s <> EmptyString.
-Proof.
-  revert s. induction n as [|n IH]; intros s H; destruct s as [|c r];
-    cbn [String.length] in H; try lia; cbn [str_drop]; [discriminate|].
-  apply IH. lia.
-Qed.
-
-Lemma ascii_boundary s i : is_ascii_str s = true ->
-  (0 <= i <= Z.of_nat (str_len s))%Z -> is_char_boundary s i = true.
-Proof.
-  intros H Hi. unfold is_char_boundary.
-  destruct (i =? 0)%Z eqn:E0; [reflexivity|].
-  destruct (i =? Z.of_nat (str_len s))%Z eqn:E1; [reflexivity|].
-  apply Z.eqb_neq in E0, E1.
-  destruct ((i <? 0)%Z || (Z.of_nat (str_len s) <? i)%Z) eqn:E2.
-  - apply orb_true_iff in E2. destruct E2 as [E2|E2]; apply Z.ltb_lt in E2; lia.
-  - pose proof (ascii_drop_head (Z.to_nat i) s H) as Hd.
-    pose proof (str_drop_nonempty (Z.to_nat i) s) as Hne.
-    destruct (str_drop (Z.to_nat i) s) as [|c r].
-    + exfalso. apply Hne; [|reflexivity]. unfold str_len in *. lia.
-    + now rewrite Hd.
-Qed.
-
-Lemma ascii_str_get s a b : is_ascii_str s = true -> (0 <= a)%Z ->
-  str_get s a b =
-  if ((a <=? b)%Z && (b <=? Z.of_nat (str_len s))%Z)%bool
-  then Some (str_take (Z.to_nat (b - a)) (str_drop (Z.to_nat a) s)) else None.
-Proof.
-  intros H Ha. unfold str_get.
-  destruct ((a <=? b)%Z && (b <=? Z.of_nat (str_len s))%Z)%bool eqn:E; [|reflexivity].
-  apply andb_true_iff in E. destruct E as [E1 E2]. apply Z.leb_le in E1, E2.
-  rewrite !ascii_boundary by (auto; lia). reflexivity.
-Qed.
-
-Lemma as_usize_nonneg x : (0 <= as_usize x)%Z.
-Proof.
-  unfold as_usize, cast_int.
-  assert (Hu : (0 <= U64_MAX)%Z) by (unfold U64_MAX; lia).
-  assert (Hc : forall z, (0 <= clamp 0 U64_MAX z)%Z).
-  { intros z. unfold clamp.
-    destruct (z <? 0)%Z eqn:E1; [lia|]. apply Z.ltb_ge in E1.
-    destruct (U64_MAX <? z)%Z eqn:E2; lia. }
-  destruct x as [s| s | |s m e].
-  - destruct (Z_of_num_trunc _); [apply Hc | lia].
-  - destruct s; lia.
-  - lia.
-  - destruct (Z_of_num_trunc _); [apply Hc | lia].
-Qed.
-
-Lemma string_char_consistency_ascii s : is_ascii_str s = true ->
-  bi_len [VStr s] = bi_len_chars [VStr s] /\
-  bi_head [VStr s] = bi_head_chars [VStr s] /\
-  bi_tail [VStr s] = bi_tail_chars [VStr s] /\
-  (forall x y, bi_slice [VStr s; VNum x; VNum y] = bi_slice_chars [VStr s; VNum x; VNum y]).
-Proof.
-  intros H. pose proof (ascii_chars s H) as Hch. fold (singles s) in Hch.
-  repeat split.
-  - cbv [bi_len bi_len_chars arg nth_error obind].
-    rewrite Hch, singles_length. reflexivity.
-  - cbv [bi_head bi_head_chars arg nth_error obind].
-    rewrite Hch, (ascii_str_get s 0 1 H) by lia.
-    destruct s as [|c r]; [reflexivity|].
-    unfold str_len. cbn [String.length].
-    replace ((0 <=? 1)%Z && (1 <=? Z.of_nat (S (String.length r)))%Z)%bool with true
-      by (symmetry; apply andb_true_iff; split; apply Z.leb_le; lia).
-    reflexivity.
-  - cbv [bi_tail bi_tail_chars arg nth_error obind]. unfold str_get_from.
-    rewrite Hch, (ascii_str_get s 1 _ H) by lia.
-    destruct s as [|c r]; [reflexivity|].
-    unfold str_len. cbn [String.length].
-    replace ((1 <=? Z.of_nat (S (String.length r)))%Z && (Z.of_nat (S (String.length r)) <=? Z.of_nat (S (String.length r)))%Z)%bool with true
-      by (symmetry; apply andb_true_iff; split; apply Z.leb_le; lia).
-    replace (Z.to_nat (Z.of_nat (S (String.length r)) - 1)) with (String.length r) by lia.
-    change (Z.to_nat 1) with 1%nat. cbn [str_drop]. rewrite str_take_all.
-    change (singles (String c r)) with (String c EmptyString :: singles r).
-    cbn [tl]. now rewrite singles_concat.
-  - intros x y. cbv [bi_slice bi_slice_chars arg nth_error obind as_number].
-    rewrite Hch, (ascii_str_get s _ _ H) by apply as_usize_nonneg.
-    unfold slice_get. rewrite singles_length. fold (str_len s).
-    destruct ((as_usize x <=? as_usize y)%Z && (as_usize y <=? Z.of_nat (str_len s))%Z)%bool; [|reflexivity].
-    rewrite singles_skipn, singles_firstn, singles_concat. reflexivity.
-Qed.
-
-Lemma string_char_consistency_refuted :
-  exists s, bi_len [VStr s] <> bi_len_chars [VStr s] /\ bi_head [VStr s] <> bi_head_chars [VStr s] /\
-            bi_tail [VStr s] <> bi_tail_chars [VStr s].
-Proof.
-  exists (String (ascii_of_nat 195) (String (ascii_of_nat 169) (String "a" EmptyString))).
-  repeat split; vm_compute; discriminate.
-Qed.
-
-Lemma string_chars_fixed s :
-  bi_len_chars [VStr s] = Ok (VNum (num_of_nat (length (chars s)))) /\
-  bi_head_chars [VStr s] = Ok (VStr (hd EmptyString (chars s))) /\
-  (exists t, bi_tail_chars [VStr s] = Ok (VStr t) /\ (hd EmptyString (chars s) ++ t)%string = s).
-Proof.
-  split; [reflexivity|]. split; [reflexivity|].
-  exists (String.concat EmptyString (tl (chars s))). split; [reflexivity|].
+  split; [reflexivity|]. split; [unfold bi_head; cbn [arg nth_error obind]; now destruct (chars s)|].
+  split; [|reflexivity].
+  exists (String.concat EmptyString (tl (chars s))). split; [reflexivity|]. split; [reflexivity|].
   pose proof (chars_concat s) as H.
   destruct (chars s) as [|x l]; cbn [hd tl].
   - cbn [String.concat] in H. subst s. reflexivity.
   - rewrite concat_empty_cons in H. exact H.
 Qed.
+
+(* head(s) is s[0] *)
+Lemma head_is_first_index s x c rest :
+  as_i64 x = 0%Z -> chars s = c :: rest ->
+  access_value (VStr s) (VNum x) = Ok (VStr c) /\ bi_head [VStr s] = Ok (VStr c).
+Proof.
+  intros Hx Hc. split.
+  - unfold access_value, index_get. rewrite Hx, Hc. reflexivity.
+  - unfold bi_head. cbn [arg nth_error obind]. now rewrite Hc.
+Qed.
+
+(* the former byte-based behaviour is gone: the old witness now agrees *)
+Example string_char_consistency_old_witness :
+  let s := String (ascii_of_nat 195) (String (ascii_of_nat 169) (String "a" EmptyString)) in
+  bi_len [VStr s] = Ok (VNum (num_of_nat 2)) /\ bi_head [VStr s] = Ok (VStr (String (ascii_of_nat 195) (String (ascii_of_nat 169) EmptyString))).
+Proof. split; vm_compute; reflexivity. Qed.
